@@ -224,6 +224,7 @@ def _run_verus_unit(u, tier):
     if exps:
         from . import replay
         replay.run_explorations(res, exps, ROOT, BUILD)
+    res['explorations_ran'] = True
     res['wall_s'] = time.time() - t0
     return res
 
@@ -235,6 +236,14 @@ def run_verus_unit(u, tier):
     a failing input turns 'undecided' into a VIOLATION with that input; if none does, the
     verdict stays undecided (a bounded replay never yields exit 0 for a proof-level unit)."""
     res = _run_verus_unit(u, tier)
+    if not res.get('explorations_ran'):
+        # the proof side stopped early (lost anchor, unsupported construct in the template): the
+        # bounded explorations do not depend on it and still run on the real code
+        exps = [e for e in u.get('thorough_explorations', []) if tier in e.get('tiers', ['thorough'])]
+        if exps:
+            from . import replay
+            replay.run_explorations(res, exps, ROOT, BUILD)
+        res['explorations_ran'] = True
     if res.get('undecided') and u.get('witnesses'):
         from . import replay
         res['fallback_replay'] = []
